@@ -2635,6 +2635,13 @@ class CondTr(Generic[X, R], Trace[X, R]):
         return jnp.where(self.check, *map(get_score, self.trs))
 
 
+def _cond_switch_correction(tr: CondTr, check) -> Weight:
+    """Each branch weight is relative to that branch's own old sub-trace; when the
+    condition changes, re-base it on the score of the branch that was visible."""
+    old_scores = [get_score(t) for t in tr.trs]
+    return jnp.where(tr.check, *old_scores) - jnp.where(check, *old_scores)
+
+
 @Pytree.dataclass
 class Cond(Generic[X, R], GFI[X, R]):
     """A `Cond` is a generative function combinator that implements conditional branching.
@@ -2756,7 +2763,7 @@ class Cond(Generic[X, R], GFI[X, R]):
         merged_discard, _ = self.callee.merge(discard, discard_, tr.check)
         return (
             CondTr(self, check, [new_tr, new_tr_]),
-            jnp.where(check, w, w_),
+            jnp.where(check, w, w_) + _cond_switch_correction(tr, check),
             merged_discard,
         )
 
@@ -2780,6 +2787,6 @@ class Cond(Generic[X, R], GFI[X, R]):
             merged_discard, _ = self.callee.merge(discard, discard_, tr.check)
         return (
             CondTr(self, check, [new_tr, new_tr_]),
-            jnp.where(check, w, w_),
+            jnp.where(check, w, w_) + _cond_switch_correction(tr, check),
             merged_discard,
         )
